@@ -14,6 +14,48 @@ func init() {
 	verifHarnesses["VerifC18_Services"] = VerifC18_Services
 	verifHarnesses["VerifC18_TypedefShapes"] = VerifC18_TypedefShapes
 	verifHarnesses["VerifC18_EnumsScopes"] = VerifC18_EnumsScopes
+	verifHarnesses["VerifC18_AddedField"] = VerifC18_AddedField
+}
+
+// (1c) a field added to a list of two or three unchanged fields, at any id (before,
+// between, after the existing ids) with any modifier, at every site: breaking iff
+// the added field is required.
+func VerifC18_AddedField() {
+	to := verifTypedefTarget(false)
+	oldF, newF := verifNewFrugal("p", to), verifNewFrugal("p", to)
+	k := 2 + verifChoice(2)
+	var oldFs, newFs []*Field
+	names := []string{"a", "b", "c"}
+	for i := 0; i < k; i++ {
+		id := verifRange(1, 6)
+		mod := FieldModifier(verifRange(0, 2))
+		oldFs = append(oldFs, &Field{ID: id, Name: names[i], Modifier: mod, Type: &Type{Name: "i32"}})
+		newFs = append(newFs, &Field{ID: id, Name: names[i], Modifier: mod, Type: &Type{Name: "i32"}})
+	}
+	added := &Field{ID: verifRange(1, 6), Name: "z", Modifier: FieldModifier(verifRange(0, 2)), Type: &Type{Name: verifScalarName()}}
+	// the added field may be declared anywhere in the new list
+	at := verifChoice(k + 1)
+	newFs = append(newFs[:at], append([]*Field{added}, newFs[at:]...)...)
+	verifAssume(verifDistinctIDs(newFs))
+	switch verifParam() {
+	case 0:
+		oldF.Structs = []*Struct{{Name: "S_1", Fields: oldFs}}
+		newF.Structs = []*Struct{{Name: "S_1", Fields: newFs}}
+	case 1:
+		oldF.Exceptions = []*Struct{{Name: "S_1", Fields: oldFs, Type: StructTypeException}}
+		newF.Exceptions = []*Struct{{Name: "S_1", Fields: newFs, Type: StructTypeException}}
+	case 2:
+		ret := &Type{Name: "i32"}
+		oldF.Services = []*Service{{Name: "Svc", Methods: []*Method{{Name: "m", ReturnType: ret, Arguments: oldFs}}}}
+		newF.Services = []*Service{{Name: "Svc", Methods: []*Method{{Name: "m", ReturnType: ret, Arguments: newFs}}}}
+	}
+	var v verifVerdict
+	v.mustFail = added.Modifier == Required
+	if added.Modifier == Required {
+		verifReach("added-required")
+	}
+	verifJudge(verifAudit(oldF, newF), v)
+	verifReach("end")
 }
 
 type verifAuditLog struct{ errors, warnings int }
@@ -285,19 +327,25 @@ func verifExtends() string {
 	return ""
 }
 
-func verifThrows(present bool) []*Field {
-	if !present {
-		return nil
+// verifThrows is a throws clause of 0..2 exceptions; the parser marks every
+// field of a throws clause Optional.
+func verifThrows(n int) []*Field {
+	var out []*Field
+	if n >= 1 {
+		out = append(out, &Field{ID: 1, Name: "e", Modifier: Optional, Type: &Type{Name: "S_1"}})
 	}
-	return []*Field{{ID: 1, Name: "e", Modifier: Default, Type: &Type{Name: "S_1"}}}
+	if n >= 2 {
+		out = append(out, &Field{ID: 2, Name: "f", Modifier: Optional, Type: &Type{Name: "S_1"}})
+	}
+	return out
 }
 
 // (2) services and methods: removal, oneway, extends, return type, exception set of void methods.
 func VerifC18_Services() {
 	to, tn := verifTypedefTarget(false), verifTypedefTarget(false)
 	oldF, newF := verifNewFrugal("p", to), verifNewFrugal("p", tn)
-	om := &Method{Name: "m", Oneway: verifNondetBool(), ReturnType: verifRetType(), Exceptions: verifThrows(verifNondetBool())}
-	nm := &Method{Name: "m", Oneway: verifNondetBool(), ReturnType: verifRetType(), Exceptions: verifThrows(verifNondetBool())}
+	om := &Method{Name: "m", Oneway: verifNondetBool(), ReturnType: verifRetType(), Exceptions: verifThrows(verifParam() / 2)}
+	nm := &Method{Name: "m", Oneway: verifNondetBool(), ReturnType: verifRetType(), Exceptions: verifThrows(verifChoice(3))}
 	oe, ne := verifExtends(), verifExtends()
 	oldSvc := &Service{Name: "Svc", Extends: oe, Methods: []*Method{om, {Name: "keep", ReturnType: &Type{Name: "i32"}}}}
 	newSvc := &Service{Name: "Svc", Extends: ne, Methods: []*Method{{Name: "keep", ReturnType: &Type{Name: "i32"}}, {Name: "added", ReturnType: nil}}}
@@ -306,7 +354,7 @@ func VerifC18_Services() {
 		newSvc.Methods = append(newSvc.Methods, nm)
 	}
 	oldF.Services = []*Service{oldSvc}
-	serviceKept := verifParam() == 0
+	serviceKept := verifParam()%2 == 0
 	if serviceKept {
 		newF.Services = []*Service{newSvc, {Name: "AddedSvc"}}
 	} else {
